@@ -7,6 +7,7 @@ import (
 	"io"
 	"math/rand"
 	"net"
+	"os"
 	"reflect"
 	"sort"
 	"strconv"
@@ -334,7 +335,11 @@ func c24NewEnv() (*c24Env, error) {
 }
 
 func c24NewEnvOnce() (*c24Env, error) {
+	// testutil reports retries on os.Stdout, which in exec mode carries the trace
+	stdout := os.Stdout
+	os.Stdout = os.Stderr
 	ip, ret := testutil.TakeIP()
+	os.Stdout = stdout
 	sc := serf.DefaultConfig()
 	sc.Init()
 	sc.MemberlistConfig.BindAddr = ip.String()
@@ -886,6 +891,10 @@ func c24Gen(rng *rand.Rand, tier string) []Case {
 		append(badV("2147483647"), g.hdr("stats"), g.hdr("tags"), "M"+mKV("Tags", "D"+hexs("role")+":"+mS("web"))),
 		append(append(badV("3"), auth("sekret")...), g.hdr("members")),
 	)
+	// almost the key (the fixed cases run with key "sekret"): a proper prefix, one byte, an extension, another case, empty
+	for _, nk := range []string{"sekre", "s", "sekretx", "SEKRET", ""} {
+		fixed = append(fixed, append(append(hs(), auth(nk)...), g.hdr("members"), g.hdr("event"), "M"+mKV("Name", mS("deploy"))))
+	}
 	for i, objs := range fixed {
 		out = append(out, c24Case(fmt.Sprintf("fixed%d", i), "sekret", objs, true, "fixed"))
 		out = append(out, c24Case(fmt.Sprintf("fixed%d-nokey", i), "", objs, true, "fixed"))
@@ -921,6 +930,21 @@ func c24Gen(rng *rand.Rand, tier string) []Case {
 			if key == "" {
 				// no key configured: these all take effect; keep `leave` out unless it is last
 				objs = c24DropLeave(objs)
+			}
+		case kind == 4 && key != "" && rng.Intn(2) == 0: // almost the key: proper prefixes, extensions, case variants, empty — never the key itself
+			tag = "near-key"
+			objs = hs()
+			near := []string{key[:len(key)-1], key[:1], key + "x", key + " ", " " + key, strings.ToUpper(key), strings.ToUpper(key[:1]) + key[1:], "", key[1:]}
+			for n := 1 + rng.Intn(3); n > 0; n-- {
+				nk := g.pick(near)
+				if nk == key {
+					nk = key[:1]
+				}
+				objs = append(objs, g.hdr("auth"), g.pick([]string{"M" + mKV("AuthKey", mS(nk)), "M" + mKV("AuthKey", "b"+hexs(nk)), "A" + mS(nk)}))
+				k := 1 + rng.Intn(3)
+				for j := 0; j < k; j++ {
+					objs = append(objs, g.request(g.pick(c24Cmds), false)...)
+				}
 			}
 		case kind <= 4: // rejected prefix, wrong keys, the right key, then accepted requests
 			tag = "auth-late"
